@@ -100,6 +100,10 @@ class GraphicalModel:
         updating_node : str
 
         """
+        if node == updating_node or node in nx.ancestors(self.source_net, updating_node):
+            raise ValueError('Node {} cannot be updated with node {} that depends on it'
+                             .format(node, updating_node))
+
         out_edges = list(self.source_net.edges(node, data=True))
         self.remove_node(node)
         self.source_net.add_node(node, attr_dict=self.source_net.nodes[updating_node]['attr_dict'])
